@@ -92,6 +92,34 @@ fn p_cvec_view_u8() {
     unsafe { (view.drop.unwrap())(view.data, view.len, view.capacity) };
     kani::cover!(true, "reaches end");
 }
+static mut F_RESERVE: u32 = 0;
+static mut F_DROP: (u32, usize, usize, usize) = (0, 0, 0, 0);
+static mut F_BUF: [u64; 8] = [0; 8];
+extern "C" fn foreign_reserve(v: *mut VecView<u64>, n: usize) -> usize {
+    // a C-side vector backed by a fixed arena of 8 slots
+    unsafe { F_RESERVE += 1; assert!((*v).len + n <= 8); (*v).capacity = 8; (*v).capacity }
+}
+unsafe extern "C" fn foreign_vec_drop(d: *mut u64, l: usize, c: usize) { F_DROP = (F_DROP.0 + 1, d as usize, l, c); }
+#[kani::proof]
+#[kani::unwind(6)]
+fn p_cvec_foreign_built() {
+    // a vector BUILT BY A C CALLER: Rust's push/insert/pop/drop drive it only through the published fields and functions
+    let (a, b, c): (u64, u64, u64) = kani::any();
+    let view = VecView::<u64> { data: unsafe { F_BUF.as_mut_ptr() }, len: 0, capacity: 1, drop: Some(foreign_vec_drop), reserve: foreign_reserve };
+    let mut cv: CVec<u64> = unsafe { core::mem::transmute_copy(&view) };
+    cv.push(a);
+    unsafe { assert!(F_RESERVE == 0, "C16 no growth call while the published capacity suffices") };
+    cv.push(b);
+    unsafe { assert!(F_RESERVE == 1, "C16 growth goes through the published reserve function") };
+    cv.insert(1, c);
+    assert!(cv.len() == 3 && cv[0] == a && cv[1] == c && cv[2] == b && cv.capacity() == 8, "C16 Rust operations work on the caller's buffer and see the capacity the reserve function published");
+    unsafe { assert!(F_BUF[0] == a && F_BUF[1] == c && F_BUF[2] == b, "C16 the elements live in the caller's buffer") };
+    assert!(cv.pop() == Some(b));
+    let data = cv.as_ptr() as usize;
+    drop(cv);
+    unsafe { assert!(F_DROP == (1, data, 2, 8), "C16 drop calls the published drop function once with (data, len, capacity)") };
+    kani::cover!(true, "end");
+}
 //@ prefix=canary kind=canary clause=vacuity canary
 #[kani::proof]
 fn canary_cvec() {
